@@ -290,6 +290,83 @@ fn e2e_data(id: u8, mask: u32, running: bool, pos: u8) -> Result<bool, Fail> {
     Ok(reported)
 }
 
+/// error codes reported AT the data word in `IHW TDH [data] <word with id>` for an arbitrary IHW word
+fn e2e_codes_at_word(id: u8, ihw_word: &Word, running: bool, pos: u8) -> std::collections::BTreeSet<String> {
+    let cfg: &'static MockConfig = inproc::mock_cfg(if running { Mode::AllIts } else { Mode::SanityIts }, false);
+    let (tx, rx) = flume::unbounded::<StatType>();
+    let mut v: CdpRunningValidator<RdhCru, MockConfig> = CdpRunningValidator::new(cfg, tx);
+    let r = Rdh { fee_id: fee_id(0, 0, 1), ..Rdh::default() };
+    let rdh = inproc::load_rdh(&r.encode());
+    v.set_current_rdh(&rdh, 0x1000);
+    let t = TdhF { trigger_type: (r.trigger_type & 0xFFF) as u16, internal: true, no_data: false, continuation: false, bc: r.bc(), orbit: r.orbit };
+    v.check(ihw_word);
+    v.check(&tdh(&t));
+    let mut w = [0x11u8; 10];
+    if pos == 1 {
+        w[9] = 0x20;
+        v.check(&w);
+    }
+    w[9] = id;
+    v.check(&w);
+    drop(v);
+    let off = 0x1000 + 64 + 20 + 10 * pos as u64;
+    let mut codes = std::collections::BTreeSet::new();
+    while let Ok(s) = rx.try_recv() {
+        if let StatType::Error(e) = s {
+            if let Some(m) = crate::cli::parse_err_msg(&e) {
+                if m.offset == off {
+                    for c in m.codes {
+                        codes.insert(c);
+                    }
+                }
+            }
+        }
+    }
+    codes
+}
+
+/// metamorphic: the active-lanes field of an IHW is its bits 27:0; its reserved bits (reported at the IHW itself) have no
+/// say in what is reported at the data words it governs
+fn ihw_reserved_case(i: u64, w: &Worker) -> CaseResult {
+    inproc::init_global_config();
+    let id = (i % 256) as u8;
+    let pat = (i / 256) % 7;
+    let mask_sel = (i / (256 * 7)) % 3;
+    let mask: u32 = [0u32, 0x0FFF_FFFF, 0x0555_5555][mask_sel as usize];
+    let mut out = CaseOut::default();
+    if id == ID_TDT || id == ID_CDW {
+        return Ok(out);
+    }
+    let clean = ihw(mask);
+    let mut dirty = clean;
+    match pat {
+        0..=3 => dirty[3] |= 0x10 << pat,
+        4 => dirty[3] |= 0xF0,
+        5 => dirty[4] = 0xFF,
+        _ => dirty[8] = 0x80,
+    }
+    for pos in [0u8, 1] {
+        for running in [true, false] {
+            let a = e2e_codes_at_word(id, &clean, running, pos);
+            let b = e2e_codes_at_word(id, &dirty, running, pos);
+            if a != b {
+                return Err(Fail::new(
+                    "C11:data:ihw-reserved-bits-change-data-verdict",
+                    format!("word with id {id:#04X} (active lanes {mask:#X}, running {running}, position {pos}): codes {a:?} under a clean IHW, {b:?} when only reserved bits of the IHW are set"),
+                    json!({"id": id, "mask": mask, "ihw_clean": crate::tape::hex(&clean), "ihw_reserved_set": crate::tape::hex(&dirty), "running": running, "position": pos}),
+                ));
+            }
+        }
+    }
+    out.nontrivial = true;
+    out.fingerprint = i;
+    out.labels.push("data:ihw_reserved_bits".into());
+    if w.take_sample() {
+        out.sample = Some(json!({"kind": "ihw reserved bits", "id": format!("{id:#04X}"), "ihw": crate::tape::hex(&dirty)}));
+    }
+    Ok(out)
+}
+
 fn data_enum_case(i: u64, w: &Worker) -> CaseResult {
     inproc::init_global_config();
     let id = (i % 256) as u8;
@@ -460,7 +537,7 @@ pub fn build() -> Property {
         id: "C11",
         rule: "Per status word type (IHW, TDH, TDT, DDW0), enumerated completely: all 256 identifier bytes x {all-zero rest, valid rest}; with the right identifier every 1-bit (72) and 2-bit (2556) pattern over the other 72 bits, \
                all-ones, inverted valid value, whole bytes FF. Data words: all 256 ids x 28 single-lane masks, empty mask and their complements, through the three predicates and end to end through the payload validator at three positions (directly after the TDH, where id 0xF8 is a calibration word; behind a data word, where it is an invalid data word id; on a continuation page whose IHW carries another active-lane mask than the first IHW) \
-               (running and sanity-only). Plus proptest-random 80-bit values (64 per case) and end-to-end status words in the state that expects them. Oracle: independent reference predicates written from the documented bit layout. \
+               (running and sanity-only); all 256 ids under an IHW whose reserved bits (31:28 one by one and together, byte 4, bit 71) are set must be judged as under the same IHW with those bits clear (same codes at the word). Plus proptest-random 80-bit values (64 per case) and end-to-end status words in the state that expects them. Oracle: independent reference predicates written from the documented bit layout. \
                Every enumerated case is distinct and non-trivial (both verdicts occur for every type: see label histogram).",
         assumptions: vec![
             "DDW0: index != 0 is the broken rule (as the property states; doc/checks_list.md says `index >= 1`, contradicted by its own test data)".into(),
@@ -469,6 +546,7 @@ pub fn build() -> Property {
         phases: vec![
             Phase { name: "status_enumerated", kind: PhaseKind::Enum { n: (4 * PER_TYPE, 4 * PER_TYPE), exhaustive: (true, true), f: Box::new(enum_case) }, threads: 16 },
             Phase { name: "data_enumerated", kind: PhaseKind::Enum { n: (256 * 29 * 2, 256 * 29 * 2), exhaustive: (true, true), f: Box::new(data_enum_case) }, threads: 16 },
+            Phase { name: "data_ihw_reserved", kind: PhaseKind::Enum { n: (256 * 7 * 3, 256 * 7 * 3), exhaustive: (true, true), f: Box::new(ihw_reserved_case) }, threads: 16 },
             Phase { name: "status_random", kind: PhaseKind::Gen { cases: (40000, 800000), tape_len: 64 * 9, f: Box::new(random_case) }, threads: 16 },
             Phase { name: "data_random", kind: PhaseKind::Gen { cases: (20000, 300000), tape_len: 80, f: Box::new(data_random_case) }, threads: 16 },
             Phase { name: "status_e2e", kind: PhaseKind::Gen { cases: (200000, 2000000), tape_len: 16, f: Box::new(e2e_status_case) }, threads: 16 },
